@@ -529,6 +529,9 @@ def b_issubclass(it, args, kw):
         return any(b_issubclass(it, [a, x], {}) for x in b)
     if isinstance(a, VClass) and isinstance(b, VClass):
         return a.is_subclass(b)
+    if isinstance(a, Opaque):
+        # an opaque class object: nothing is known about its bases - both answers are possible
+        return wrap(z3.Bool(it.path.fresh("issubclass")))
     raise OutOfSubset("issubclass")
 
 
